@@ -16,8 +16,20 @@ package pot
 // exactly once — did not discharge within the budget and is covered by the bounded stand-in, see DESIGN.md)
 //@ pred CONTRIBOK(ll, l) = forall a :: 0 <= a && a < len(l.Contributors) ==> in(l.Contributors[a], ll.contributors) && ll.contributors[l.Contributors[a]] >= l.Level
 
+// ... and conversely: every player who paid at least a level is listed for it, nobody twice
+// (the second conjunct follows from CONTRIBOK; it names the list's memory outside the quantifier, which is what lets the
+//  solvers carry the existential over to a later heap)
+//@ pred COMPLETE(ll, l) = (forall i :: in(i, ll.contributors) && ll.contributors[i] >= l.Level ==> (exists a :: 0 <= a && a < len(l.Contributors) && l.Contributors[a] == i))
+//@    && (len(l.Contributors) > 0 ==> in(l.Contributors[0], ll.contributors))
+//@ pred NODUP(l) = forall a, b :: 0 <= a && a < b && b < len(l.Contributors) ==> l.Contributors[a] != l.Contributors[b]
+//@ pred LISTSOK(ll) = forall k :: 0 <= k && k < len(ll.levels) ==> COMPLETE(ll, ll.levels[k]) && NODUP(ll.levels[k])
+
+//@ pred PTRSDISTINCT(ll) = forall a, b :: 0 <= a && a < b && b < len(ll.levels) ==> ll.levels[a] != ll.levels[b]
 //@ pred AMOUNTSOK(ll) = forall k :: 0 <= k && k < len(ll.levels) ==>
 //@      ll.levels[k].Wager == ll.levels[k].Level - ite(k == 0, 0, ll.levels[k - 1].Level)
+
+// a level's total is what its listed contributors put into it: their number times the step to the previous level
+//@ pred TOTALSOK(ll) = forall k :: 0 <= k && k < len(ll.levels) ==> ll.levels[k].Total == umul(len(ll.levels[k].Contributors), ll.levels[k].Wager)
 
 //@ pred LLINV(ll) = WFLL(ll) && LEVELSOK(ll) && (forall k :: 0 <= k && k < len(ll.levels) ==> CONTRIBOK(ll, ll.levels[k])) && AMOUNTSOK(ll)
 //@    && (forall i :: in(i, ll.contributors) ==> ll.contributors[i] >= 0)
@@ -37,11 +49,15 @@ package pot
 
 //@ func (*LevelList).AddContributor(ll, wager, contributorIdx, fold)
 //@   hints
+//@   opaquemul
 //@   props C16 C01
 //@   requires LLINV(ll) && wager >= 0 && !in(contributorIdx, ll.contributors)
+//@   requires [C16] LISTSOK(ll) && TOTALSOK(ll)
 //@   modifies ll.levels, Level, map(map[int]int64), map(map[int]bool), elems(*Level)
 //@   allocs Level, elems(*Level), elems(int)
 //@   ensures [C16] LLINV(ll)
+//@   -- the lists are complete and duplicate-free; a level's total is the number of its contributors times its step
+//@   ensures [C16] LISTSOK(ll) && TOTALSOK(ll)
 //@   ensures in(contributorIdx, ll.contributors) && ll.contributors[contributorIdx] == wager
 //@   ensures forall i :: i != contributorIdx ==> (in(i, ll.contributors) <==> old(in(i, ll.contributors))) && ll.contributors[i] == old(ll.contributors[i])
 //@   ensures forall i :: in(i, ll.foldedPlayers) <==> (old(in(i, ll.foldedPlayers)) || (fold && i == contributorIdx))
@@ -54,13 +70,20 @@ package pot
 //@   assert Slice:1 LEVELSOK(ll)
 //@   -- (the loops write neither the level slice, nor Level.Level, nor the contributor map: LEVELSOK established after
 //@   --  the sort needs no restating; restating its forall-exists pairs only feeds a matching loop)
+//@   assert Slice:1 [C16] PTRSDISTINCT(ll)
+//@   loop 1 invariant [C16] PTRSDISTINCT(ll)
+//@   loop 2 invariant [C16] PTRSDISTINCT(ll)
 //@   loop 1 invariant forall k :: 0 <= k && k <= rangeindex ==> CONTRIBOK(ll, ll.levels[k])
+//@   loop 1 invariant [C16] forall k :: 0 <= k && k <= rangeindex ==> COMPLETE(ll, ll.levels[k]) && NODUP(ll.levels[k])
 //@   loop 2 invariant forall k :: 0 <= k && k < rangeindex + 1 ==> CONTRIBOK(ll, ll.levels[k])
 //@   loop 2 invariant CONTRIBOK(ll, ll.levels[rangeindex + 1])
+//@   loop 2 invariant [C16] NODUP(ll.levels[rangeindex + 1]) && (forall a :: 0 <= a && a < len(ll.levels[rangeindex + 1].Contributors) ==> seen(ll.levels[rangeindex + 1].Contributors[a]))
+//@   loop 2 invariant [C16] forall i :: seen(i) && ll.contributors[i] >= ll.levels[rangeindex + 1].Level ==> (exists a :: 0 <= a && a < len(ll.levels[rangeindex + 1].Contributors) && ll.levels[rangeindex + 1].Contributors[a] == i)
 //@   loop 3 invariant forall k :: 0 <= k && k < len(ll.levels) ==> CONTRIBOK(ll, ll.levels[k])
 //@   loop 3 invariant prevLevel == ite(rangeindex < 0, 0, ll.levels[rangeindex].Level)
 //@   loop 3 invariant forall k :: 0 <= k && k <= rangeindex ==>
 //@      ll.levels[k].Wager == ll.levels[k].Level - ite(k == 0, 0, ll.levels[k - 1].Level)
+//@   loop 3 invariant [C16] forall k :: 0 <= k && k <= rangeindex ==> ll.levels[k].Total == umul(len(ll.levels[k].Contributors), ll.levels[k].Wager)
 
 // GetPots: assumed contract (body not verified: its full statement is covered by the bounded stand-in of C16)
 //@ func (*LevelList).GetPots(ll) (res)
